@@ -197,3 +197,36 @@ Definition run_fmt (d : rdata) (back : option cty) : string :=
       end
     end
   end.
+
+(* ---- kind nv (C17): NumericValue<T>::try_from + NumericBuilder ---- *)
+From VF Require Import Numeric.
+Definition show_resZ (r : res Z) : string := match r with Ok z => "I" ++ show_Z z | Err e => "E" ++ show_Z e end.
+Definition show_sfbits (ft : fty) (v : spec_float) : string :=
+  "F" ++ hex_of_Z_aux (match ft with F32 => 8 | F64 => 16 end) (sf_bits ft v) "".
+Definition run_nv_int (t : ity) (input : list N) (ops : list (@bop Z)) : string :=
+  match tokenize_params input with
+  | Val (IOk tok :: _) =>
+    match nv_try_from (conv_int t) tok with
+    | Panic s => "PANIC " ++ s
+    | Val (Err e) => "E" ++ show_Z e ++ " -"
+    | Val (Ok v) =>
+      (match v with NVal z => "VI" ++ show_Z z | NMax => "MAX" | NMin => "MIN" | NDef => "DEF" | NUp => "UP" | NDown => "DOWN" end)
+      ++ " " ++ show_resZ (finish Z.leb (build (ity_max t) (ity_min t) v ops))
+    end
+  | Val (IErr e :: _) => "L" ++ show_Z e
+  | _ => "N"
+  end.
+Definition run_nv_float (t : fty) (input : list N) (ops : list (@bop spec_float)) : string :=
+  match tokenize_params input with
+  | Val (IOk tok :: _) =>
+    match nv_try_from (conv_float t) tok with
+    | Panic s => "PANIC " ++ s
+    | Val (Err e) => "E" ++ show_Z e ++ " -"
+    | Val (Ok v) =>
+      (match v with NVal z => "V" ++ show_sfbits t z | NMax => "MAX" | NMin => "MIN" | NDef => "DEF" | NUp => "UP" | NDown => "DOWN" end)
+      ++ " " ++ match finish SFleb (build (sf_max t false) (sf_max t true) v ops) with
+                | Ok z => show_sfbits t z | Err e => "E" ++ show_Z e end
+    end
+  | Val (IErr e :: _) => "L" ++ show_Z e
+  | _ => "N"
+  end.
